@@ -411,4 +411,315 @@ theorem gs_ckks_square_dispatch (d : List Nat) (size : Nat) (ntt : Bool) (mods :
     · subst hs; simp
     · unfold GenC.ct_ckks_square; simp [hs, pure, Except.pure]
 
+
+/-! ### `bgv_multiply`: the data loops (also the fallback route of `bgv_square`) -/
+
+/-- shape of a model polynomial whose flattening can be read back -/
+def gs_Shape (l : Level) (p : RnsPoly) : Prop := p.size = l.size ∧ ∀ j, j < l.size → (p.getD j #[]).size = l.n
+
+theorem gs_shape_unflatten (l : Level) (d : List Nat) : gs_Shape l (unflattenRns l.size l.n d) := gs_unflatten_shape _ _ _
+
+theorem gs_shape_zip (l : Level) (a b : RnsPoly) (f : Nat → Nat → Modulus → R Nat) (o : RnsPoly) (h : rnsZip l a b f = .ok o)
+    (ha : gs_Shape l a) : gs_Shape l o := by
+  obtain ⟨h1, h2⟩ := gs_rnsZip_shape l a b f o h
+  exact ⟨h1, fun j hj => by rw [h2 j hj]; exact ha.2 j hj⟩
+
+theorem gs_uf (l : Level) (p : RnsPoly) (h : gs_Shape l p) : unflattenRns l.size l.n (flattenRns l.size l.n p) = p :=
+  gt_unflatten_flatten _ _ _ h.1 h.2
+
+/-- one accumulation step of the model's product, on blocks of the flat operands -/
+def gs_mulStep (l : Level) (A B : List Nat) (acc : RnsPoly) (p : Nat × Nat) : R RnsPoly := do
+  let pr ← rnsDyadic l (unflattenRns l.size l.n (gp_blk (l.size * l.n) A p.1)) (unflattenRns l.size l.n (gp_blk (l.size * l.n) B p.2))
+  rnsAdd l acc pr
+
+theorem gs_map_fst_bind {α β γ : Type} (x : R (α × β)) (f : α → R γ) :
+    (x >>= fun p => f p.1) = (Except.map Prod.fst x >>= f) := by
+  cases x <;> rfl
+
+/-- the inner loop (`for j in 0..steps`): the accumulator block `i` of `temp` runs through the model's fold over the visited pairs -/
+theorem gs_mul_inner (l : Level) (A B pre post : List Nat) (i first1 first2 s1 s2 steps : Nat)
+    (hpre : pre.length = i * (l.size * l.n)) (hA : s1 * (l.size * l.n) ≤ A.length) (hB : s2 * (l.size * l.n) ≤ B.length)
+    (hAB : A.length < B64) (hBB : B.length < B64) (h2 : first2 < s2) (hs1B : s1 < B64)
+    (hT : pre.length + l.size * l.n + post.length < B64) :
+    ∀ cnt j acc prod, gs_Shape l acc → prod.length = l.size * l.n → first1 + j + cnt ≤ s1 → j + cnt ≤ first2 + 1 →
+    Except.map Prod.fst (GenC.ct_bgv_multiply_loop2 A B l.n l.qs.toList i first2 first1 steps (l.size * l.n) cnt j
+        (pre ++ flattenRns l.size l.n acc ++ post) prod) =
+      Except.map (fun acc' => pre ++ flattenRns l.size l.n acc' ++ post)
+        (((List.range' j cnt).map fun j => (first1 + j, first2 - j)).foldlM (gs_mulStep l A B) acc) := by
+  generalize hD : l.size * l.n = D at *
+  have hfl : ∀ p : RnsPoly, (flattenRns l.size l.n p).length = D := fun p => by rw [gt_flattenRns_length, hD]
+  intro cnt
+  induction cnt with
+  | zero => intro j acc prod _ _ _ _; rfl
+  | succ c ih =>
+    intro j acc prod hacc hprod hj1 hj2
+    have hs1 : (first1 + j) * D + D ≤ A.length := by
+      have : (first1 + j + 1) * D ≤ s1 * D := Nat.mul_le_mul_right _ (by omega)
+      rw [Nat.succ_mul] at this; omega
+    have hs2 : (first2 - j) * D + D ≤ B.length := by
+      have : (first2 - j + 1) * D ≤ s2 * D := Nat.mul_le_mul_right _ (by omega)
+      rw [Nat.succ_mul] at this; omega
+    rw [GenC.ct_bgv_multiply_loop2]
+    simp only [gs_ckAdd first1 j (by omega), gs_ckMul (first1 + j) D (by omega), gy_ok_bind,
+      show ckSub first2 j = .ok (first2 - j) from (by unfold ckSub; rw [if_pos (by omega)]), gs_ckMul (first2 - j) D (by omega),
+      gs_ckMul i D (by rw [← hpre]; omega), gs_ckAdd ((first1 + j) * D) D (by omega), gs_ckAdd ((first2 - j) * D) D (by omega),
+      gs_ckAdd (i * D) D (by rw [← hpre]; omega), gp_slice_blk A (first1 + j) D hs1, gp_slice_blk B (first2 - j) D hs2,
+      List.range'_succ, List.map_cons, List.foldlM_cons, gs_mulStep]
+    rw [gs_poly_dyadic_product_p_model l _ _ prod (by rw [hD]; exact hprod) (by rw [hD, gp_blk_length _ _ _ hs1])
+      (by rw [hD, gp_blk_length _ _ _ hs2]) (by rw [hprod]; omega)]
+    rw [hD]
+    cases hpr : rnsDyadic l (unflattenRns l.size l.n (gp_blk D A (first1 + j))) (unflattenRns l.size l.n (gp_blk D B (first2 - j))) with
+    | error e => rfl
+    | ok pr =>
+      have hprs : gs_Shape l pr := gs_shape_zip l _ _ _ _ hpr (gs_shape_unflatten l _)
+      simp only [Except.map, gy_ok_bind]
+      rw [gs_slice_mid pre (flattenRns l.size l.n acc) post (i * D) (i * D + D) hpre.symm (by rw [hfl, hpre])]
+      simp only [gy_ok_bind]
+      rw [gp_poly_add_inplace_p_model l _ _ (by rw [hfl, hD]) (by rw [hfl, hD]) (by rw [hfl]; omega), gs_uf l acc hacc, gs_uf l pr hprs]
+      cases hadd : rnsAdd l acc pr with
+      | error e => rfl
+      | ok acc' =>
+        have hacc' : gs_Shape l acc' := gs_shape_zip l _ _ _ _ hadd hacc
+        simp only [Except.map, gy_ok_bind]
+        rw [gs_splice_mid pre (flattenRns l.size l.n acc) post _ (i * D) hpre.symm (by rw [hfl, hfl])]
+        exact ih (j + 1) acc' (flattenRns l.size l.n pr) hacc' (hfl pr) (by omega) (by omega)
+
+
+theorem gs_fold_shape (l : Level) (A B : List Nat) : ∀ (ps : List (Nat × Nat)) (acc r : RnsPoly), gs_Shape l acc →
+    ps.foldlM (gs_mulStep l A B) acc = .ok r → gs_Shape l r := by
+  intro ps
+  induction ps with
+  | nil => intro acc r h hr; cases hr; exact h
+  | cons p ps ih =>
+    intro acc r h hr
+    rw [List.foldlM_cons] at hr
+    cases hs : gs_mulStep l A B acc p with
+    | error e => rw [hs] at hr; cases hr
+    | ok acc' =>
+      rw [hs] at hr
+      refine ih acc' r ?_ hr
+      unfold gs_mulStep at hs
+      cases hpr : rnsDyadic l (unflattenRns l.size l.n (gp_blk (l.size * l.n) A p.1)) (unflattenRns l.size l.n (gp_blk (l.size * l.n) B p.2)) with
+      | error e => rw [hpr] at hs; cases hs
+      | ok pr => rw [hpr] at hs; exact gs_shape_zip l _ _ _ _ hs h
+
+theorem gs_flatten_zero (l : Level) : flattenRns l.size l.n (rnsZero l) = List.replicate (l.size * l.n) 0 := by
+  apply List.ext_getElem
+  · simp [flattenRns]
+  · intro k h1 h2
+    have hk : k < l.size * l.n := by simpa [flattenRns] using h1
+    have hn : 0 < l.n := by
+      rcases Nat.eq_zero_or_pos l.n with h | h
+      · rw [h] at hk; simp at hk
+      · exact h
+    have hd : k / l.n < l.size := gz_div_lt hk
+    simp [flattenRns, rnsZero, Array.getD, hd, Nat.mod_lt _ hn]
+
+theorem gs_zero_shape (l : Level) : gs_Shape l (rnsZero l) := by
+  refine ⟨by simp [rnsZero], fun j hj => ?_⟩
+  simp [rnsZero, Array.getD, hj]
+
+theorem gs_mulPairs_range' (s1 s2 i : Nat) :
+    mulPairs s1 s2 i = (List.range' 0 (min i (s1 - 1) - (i - min i (s2 - 1)) + 1)).map
+      fun j => (i - min i (s2 - 1) + j, min i (s2 - 1) - j) := by
+  unfold mulPairs
+  simp only [List.range_eq_range']
+
+/-- flat buffer of a list of model polynomials -/
+def gs_flat (l : Level) (ps : List RnsPoly) : List Nat := (ps.map (flattenRns l.size l.n)).flatten
+
+theorem gs_flat_length (l : Level) (ps : List RnsPoly) : (gs_flat l ps).length = ps.length * (l.size * l.n) := gt_flatten_length _ _ _
+
+theorem gs_flat_snoc (l : Level) (ps : List RnsPoly) (p : RnsPoly) : gs_flat l (ps ++ [p]) = gs_flat l ps ++ flattenRns l.size l.n p := by
+  simp [gs_flat]
+
+/-- the outer loop (`for i in 0..dest_size`) followed by the copy back and the factor: the model's `mapM` over the output polynomials -/
+theorem gs_mul_outer (l : Level) (A B : List Nat) (s1 s2 v1 cf1 cf2 : Nat) (h1 : 1 ≤ s1) (h2 : 1 ≤ s2) (hk : 1 ≤ l.size)
+    (hA : A.length = (s1 + s2 - 1) * (l.size * l.n)) (hB : s2 * (l.size * l.n) ≤ B.length)
+    (hAB : A.length < B64) (hBB : B.length < B64) (hsB : s1 + s2 < B64) :
+    ∀ cnt i (done : List RnsPoly), done.length = i → i + cnt = s1 + s2 - 1 →
+    GenC.ct_bgv_multiply_loop1 A B cf2 l.qs.toList l.t l.n v1 cf1 l.n l.size s1 s2 (s1 + s2 - 1) cnt i
+        (gs_flat l done ++ List.replicate (cnt * (l.size * l.n)) 0) = (do
+      let rest ← (List.range' i cnt).mapM (fun i => (mulPairs s1 s2 i).foldlM (gs_mulStep l A B) (rnsZero l))
+      let f ← mulMod cf1 cf2 l.t
+      pure (gs_flat l (done ++ rest), v1, f)) := by
+  have hlen : l.qs.toList.length = l.size := by simp [Level.size]
+  have hPD : l.n * l.size = l.size * l.n := Nat.mul_comm _ _
+  have hs1A : s1 * (l.size * l.n) ≤ A.length := by rw [hA]; exact Nat.mul_le_mul_right _ (by omega)
+  intro cnt
+  induction cnt with
+  | zero =>
+    intro i done hdone hi
+    rw [GenC.ct_bgv_multiply_loop1]
+    have hX : A.length = (s1 + s2 - 1) * (l.n * l.size) := by rw [hPD]; exact hA
+    have hV : (gs_flat l done ++ List.replicate (0 * (l.size * l.n)) 0).length = (s1 + s2 - 1) * (l.n * l.size) := by
+      simp only [Nat.zero_mul, List.replicate_zero, List.append_nil, gs_flat_length, hdone, hPD]; rw [← hi]; simp
+    simp only [hlen, gs_ckMul l.n l.size (by rw [hPD]; have := Nat.le_mul_of_pos_left (l.size * l.n) (show 0 < s1 + s2 - 1 by omega); omega),
+      gy_ok_bind, gs_ckMul 0 (l.n * l.size) (by simp [B64]), Nat.zero_mul, gs_ckMul (s1 + s2 - 1) (l.n * l.size) (by rw [← hX]; exact hAB),
+      gt_slice_drop A 0 _ hX (by omega), gs_copy_whole A _ _ hX hV, gw_multiply_u64_mod_eq, List.range'_zero, List.mapM_nil,
+      pure, Except.pure, List.append_nil, List.replicate_zero]
+    rw [gs_copy_whole A (gs_flat l done) _ hX (by simpa using hV)]
+    rfl
+  | succ c ih =>
+    intro i done hdone hi
+    have hD0 : 0 < s1 + s2 - 1 := by omega
+    have hDle : l.size * l.n ≤ A.length := by rw [hA]; exact Nat.le_mul_of_pos_left _ hD0
+    rw [GenC.ct_bgv_multiply_loop1]
+    have e1 : ckSub s1 1 = .ok (s1 - 1) := by unfold ckSub; rw [if_pos (by omega)]
+    have e2 : ckSub s2 1 = .ok (s2 - 1) := by unfold ckSub; rw [if_pos (by omega)]
+    have e3 : ckSub i (min i (s2 - 1)) = .ok (i - min i (s2 - 1)) := by unfold ckSub; rw [if_pos (by omega)]
+    have e4 : ckSub (min i (s1 - 1)) (i - min i (s2 - 1)) = .ok (min i (s1 - 1) - (i - min i (s2 - 1))) := by
+      unfold ckSub; rw [if_pos (by omega)]
+    have e5 : ckAdd (min i (s1 - 1) - (i - min i (s2 - 1))) 1 = .ok (min i (s1 - 1) - (i - min i (s2 - 1)) + 1) := gs_ckAdd _ _ (by omega)
+    have e6 : ckMul l.n l.size = .ok (l.size * l.n) := by rw [gs_ckMul _ _ (by rw [hPD]; omega), hPD]
+    simp only [e1, e2, e3, e4, e5, e6, gy_ok_bind]
+    -- the buffer: finished polynomials, the zero block of polynomial i, the remaining zeros
+    have hsplit : gs_flat l done ++ List.replicate ((c + 1) * (l.size * l.n)) 0 =
+        gs_flat l done ++ flattenRns l.size l.n (rnsZero l) ++ List.replicate (c * (l.size * l.n)) 0 := by
+      rw [gs_flatten_zero, List.append_assoc, List.replicate_append_replicate, Nat.succ_mul, Nat.add_comm]
+    rw [hsplit]
+    have hin := gs_mul_inner l A B (gs_flat l done) (List.replicate (c * (l.size * l.n)) 0) i (i - min i (s2 - 1)) (min i (s2 - 1)) s1 s2
+      (min i (s1 - 1) - (i - min i (s2 - 1)) + 1) (by rw [gs_flat_length, hdone]) hs1A hB hAB hBB (by omega) (by omega)
+      (by
+        have : (i + (c + 1)) * (l.size * l.n) = A.length := by rw [hi, hA]
+        rw [gs_flat_length, hdone, List.length_replicate]
+        have e : (i + (c + 1)) * (l.size * l.n) = i * (l.size * l.n) + l.size * l.n + c * (l.size * l.n) := by
+          rw [Nat.add_mul, Nat.succ_mul]; omega
+        omega)
+      (min i (s1 - 1) - (i - min i (s2 - 1)) + 1) 0 (rnsZero l) (List.replicate (l.size * l.n) 0) (gs_zero_shape l) (by simp)
+      (by omega) (by omega)
+    rw [← gs_mulPairs_range'] at hin
+    simp only [List.range'_succ, List.mapM_cons]
+    cases hL : GenC.ct_bgv_multiply_loop2 A B l.n l.qs.toList i (min i (s2 - 1)) (i - min i (s2 - 1))
+        (min i (s1 - 1) - (i - min i (s2 - 1)) + 1) (l.size * l.n) (min i (s1 - 1) - (i - min i (s2 - 1)) + 1) 0
+        (gs_flat l done ++ flattenRns l.size l.n (rnsZero l) ++ List.replicate (c * (l.size * l.n)) 0)
+        (List.replicate (l.size * l.n) 0) with
+    | error e =>
+      rw [hL] at hin
+      cases hf : (mulPairs s1 s2 i).foldlM (gs_mulStep l A B) (rnsZero l) with
+      | error e' => rw [hf] at hin; cases hin; rfl
+      | ok r => rw [hf] at hin; cases hin
+    | ok pr =>
+      rw [hL] at hin
+      cases hf : (mulPairs s1 s2 i).foldlM (gs_mulStep l A B) (rnsZero l) with
+      | error e' => rw [hf] at hin; cases hin
+      | ok r =>
+        rw [hf] at hin
+        have hpr : pr.1 = gs_flat l done ++ flattenRns l.size l.n r ++ List.replicate (c * (l.size * l.n)) 0 := Except.ok.inj hin
+        obtain ⟨v8', prod'⟩ := pr
+        simp only at hpr
+        subst hpr
+        simp only [gy_ok_bind]
+        rw [← gs_flat_snoc, ih (i + 1) (done ++ [r]) (by simp [hdone]) (by omega)]
+        cases (List.range' (i + 1) c).mapM (fun i => (mulPairs s1 s2 i).foldlM (gs_mulStep l A B) (rnsZero l)) with
+        | error e => rfl
+        | ok rest => simp [gy_ok_bind, List.append_assoc]
+
+
+theorem gs_foldlM_congr {α β : Type} (f g : β → α → R β) : ∀ (ps : List α) (acc : β), (∀ p, p ∈ ps → ∀ acc, f acc p = g acc p) →
+    ps.foldlM f acc = ps.foldlM g acc := by
+  intro ps
+  induction ps with
+  | nil => intro acc _; rfl
+  | cons p ps ih =>
+    intro acc h
+    rw [List.foldlM_cons, List.foldlM_cons, h p (by simp) acc]
+    cases g acc p with
+    | error e => rfl
+    | ok acc' => exact ih acc' (fun q hq => h q (by simp [hq]))
+
+/-- GENERATED = MODEL (`bgv_multiply`, data and factor): on the flat buffers of two NTT-form ciphertexts of ANY sizes s1, s2 ≥ 1 the code generated from
+    `Evaluator::bgv_multiply` (resize, nested loops over the visited pairs with `dyadic_product_p` / `add_inplace_p`, copy back, factor product) returns the
+    flattened `bgvMultiply` of the model, the size s1 + s2 − 1 and the model's factor - successes, the `resize` refusal and arithmetic traps alike -/
+theorem gs_bgv_multiply_eq (l : Level) (d1 d2 : List Nat) (s1 s2 cf1 cf2 : Nat) (hd1 : d1.length = s1 * (l.size * l.n))
+    (hd2 : d2.length = s2 * (l.size * l.n)) (h1 : 1 ≤ s1) (h2 : 1 ≤ s2) (hk : 1 ≤ l.size)
+    (hB : (s1 + s2 - 1) * (l.size * l.n) < B64) (hB2 : d2.length < B64) (hsB : s1 + s2 < B64) :
+    GenC.ct_bgv_multiply d1 s1 cf1 d2 s2 cf2 true true l.qs.toList l.t l.n =
+      Except.map (fun c => (flattenCt l c, s1 + s2 - 1, c.cf))
+        (bgvMultiply l (unflattenCt l s1 d1 true cf1) (unflattenCt l s2 d2 true cf2)) := by
+  have hlen : l.qs.toList.length = l.size := by simp [Level.size]
+  have hPD : l.n * l.size = l.size * l.n := Nat.mul_comm _ _
+  have hn : l.n ≤ l.size * l.n := Nat.le_mul_of_pos_left _ hk
+  unfold GenC.ct_bgv_multiply bgvMultiply ctMultiplyDyadic
+  have hntt1 : (unflattenCt l s1 d1 true cf1).ntt = true := rfl
+  have hntt2 : (unflattenCt l s2 d2 true cf2).ntt = true := rfl
+  have hcf1 : (unflattenCt l s1 d1 true cf1).cf = cf1 := rfl
+  have hcf2 : (unflattenCt l s2 d2 true cf2).cf = cf2 := rfl
+  simp only [hlen, hntt1, hntt2, hcf1, hcf2, gc_polys_size, not_true_eq_false, or_self, if_false, Bool.not_true, Bool.false_eq_true,
+    gs_ckAdd s1 s2 hsB, gy_ok_bind, show ckSub (s1 + s2) 1 = .ok (s1 + s2 - 1) from (by unfold ckSub; rw [if_pos (by omega)])]
+  rw [if_neg (show ¬(s1 < 1 ∨ s2 < 1) by omega)]
+  by_cases hrz : ctResizeRefuses (s1 + s2 - 1) = true
+  · have hr := (ctResizeRefuses_eq_true_iff _).mp hrz
+    rw [if_pos hrz, if_neg (show ¬¬((s1 + s2 - 1 < 2 ∧ s1 + s2 - 1 ≠ 0) ∨ s1 + s2 - 1 > 16) by omega)]
+    rfl
+  · have hr := (ctResizeRefuses_eq_false_iff _).mp (by simpa using hrz)
+    rw [if_neg hrz, if_pos (show ¬((s1 + s2 - 1 < 2 ∧ s1 + s2 - 1 ≠ 0) ∨ s1 + s2 - 1 > 16) by omega)]
+    have hmul : (s1 + s2 - 1) * l.n * l.size = (s1 + s2 - 1) * (l.size * l.n) := by rw [Nat.mul_assoc, hPD]
+    have hdn : (s1 + s2 - 1) * l.n < B64 := by
+      have : (s1 + s2 - 1) * l.n ≤ (s1 + s2 - 1) * (l.size * l.n) := Nat.mul_le_mul_left _ hn
+      omega
+    simp only [gs_ckMul (s1 + s2 - 1) l.n hdn, gs_ckMul ((s1 + s2 - 1) * l.n) l.size (by rw [hmul]; exact hB), gy_ok_bind, hmul]
+    have hle : d1.length ≤ (s1 + s2 - 1) * (l.size * l.n) := by rw [hd1]; exact Nat.mul_le_mul_right _ (by omega)
+    rw [gt_resizeL_grow _ _ hle]
+    generalize hZ : List.replicate ((s1 + s2 - 1) * (l.size * l.n) - d1.length) 0 = Z
+    have hA : (d1 ++ Z).length = (s1 + s2 - 1) * (l.size * l.n) := by rw [List.length_append, ← hZ, List.length_replicate]; omega
+    have hout := gs_mul_outer l (d1 ++ Z) d2 s1 s2 (s1 + s2 - 1) cf1 cf2 h1 h2 hk hA (by rw [hd2]) (by rw [hA]; exact hB) hB2 hsB
+      (s1 + s2 - 1) 0 [] rfl (by omega)
+    simp only [gs_flat, List.map_nil, List.flatten_nil, List.nil_append] at hout
+    rw [hout, ← List.range_eq_range']
+    -- the model's fold, on the blocks of the resized first buffer
+    rw [gp_mapM_congr' (fun i => (mulPairs s1 s2 i).foldlM (gs_mulStep l (d1 ++ Z) d2) (rnsZero l))
+      (fun i => (mulPairs s1 s2 i).foldlM (fun acc p => do
+        let pr ← rnsDyadic l ((unflattenCt l s1 d1 true cf1).polys.getD p.1 #[]) ((unflattenCt l s2 d2 true cf2).polys.getD p.2 #[])
+        rnsAdd l acc pr) (rnsZero l)) _ (fun i hi => by
+      have hi := List.mem_range.mp hi
+      obtain ⟨_, hmem⟩ := mulPairs_spec h1 h2 hi
+      apply gs_foldlM_congr
+      intro p hp acc
+      obtain ⟨hp1, hp2, _⟩ := (hmem p.1 p.2).mp hp
+      have hb1 : p.1 * (l.size * l.n) + l.size * l.n ≤ d1.length := by rw [hd1]; exact gp_blk_bound hp1
+      unfold gs_mulStep
+      rw [gc_polys_getD l s1 d1 true cf1 p.1 hp1, gc_polys_getD l s2 d2 true cf2 p.2 hp2, gt_blk_app _ _ _ _ hb1])]
+    cases (List.range (s1 + s2 - 1)).mapM (fun i => (mulPairs s1 s2 i).foldlM (fun acc p => do
+        let pr ← rnsDyadic l ((unflattenCt l s1 d1 true cf1).polys.getD p.1 #[]) ((unflattenCt l s2 d2 true cf2).polys.getD p.2 #[])
+        rnsAdd l acc pr) (rnsZero l)) with
+    | error e => rfl
+    | ok ps =>
+      simp only [gy_ok_bind, pure, Except.pure]
+      cases mulMod cf1 cf2 l.t with
+      | error e => rfl
+      | ok f => simp [gy_ok_bind, Except.map, flattenCt]
+
+
+/-- `bgv_square` as the code runs it: the generated dispatch / fast path, and on route 1 the generated `bgv_multiply` on the ciphertext and
+    its clone (`self.bgv_multiply(encrypted, &encrypted.clone())`: same buffer, size, factor and representation for both operands) -/
+def gs_bgv_square_run (d : List Nat) (size cf : Nat) (ntt : Bool) (mods : List Modulus) (t : Modulus) (n : Nat) : R (List Nat × Nat × Nat) := do
+  let r ← GenC.ct_bgv_square d size cf ntt mods t n
+  if r.2.2.2 = 1 then GenC.ct_bgv_multiply r.1 r.2.1 r.2.2.1 r.1 r.2.1 r.2.2.1 ntt ntt mods t n
+  else pure (r.1, r.2.1, r.2.2.1)
+
+/-- GENERATED = MODEL (`bgv_square`, EVERY size ≥ 1, both representations): the generated code, with the fallback route resolved by the generated
+    `bgv_multiply`, returns the flattened `bgvSquare` of the model, the size 2s − 1 and the model's factor; refusals (coefficient form, result
+    size > 16) and arithmetic traps included.  With `bgvSquare_eq`: = the flattened product of the ciphertext with itself. -/
+theorem gs_bgv_square_run_eq (l : Level) (d : List Nat) (s cf : Nat) (ntt : Bool) (hd : d.length = s * (l.size * l.n)) (h1 : 1 ≤ s)
+    (hk : 1 ≤ l.size) (hB : (2 * s - 1) * (l.size * l.n) < B64) (hsB : s + s < B64) :
+    gs_bgv_square_run d s cf ntt l.qs.toList l.t l.n =
+      Except.map (fun c => (flattenCt l c, 2 * s - 1, c.cf)) (bgvSquare l (unflattenCt l s d ntt cf)) := by
+  unfold gs_bgv_square_run
+  rw [gs_bgv_square_dispatch]
+  cases ntt
+  · rw [if_pos rfl, bgvSquare_refuse l _ rfl]; rfl
+  · rw [if_neg (by simp)]
+    by_cases hs : s = 2
+    · subst hs
+      rw [if_neg (by simp), gs_bgv_square_eq l d cf hd hk (by omega)]
+      cases bgvSquare l (unflattenCt l 2 d true cf) with
+      | error e => rfl
+      | ok c => rfl
+    · rw [if_pos hs]
+      simp only [gy_ok_bind, if_true]
+      have hle : s * (l.size * l.n) ≤ (2 * s - 1) * (l.size * l.n) := Nat.mul_le_mul_right _ (by omega)
+      rw [gs_bgv_multiply_eq l d d s s cf cf hd hd h1 h1 hk (by rw [show s + s - 1 = 2 * s - 1 by omega]; exact hB) (by omega) hsB,
+        bgvSquare_fallback l _ rfl (by rw [gc_polys_size]; exact hs), show s + s - 1 = 2 * s - 1 by omega]
+
 end HC
